@@ -21,7 +21,36 @@ def _env():
     return env
 
 
+CHUNK = int(os.environ.get("FLACVERIF_KANI_CHUNK", "14"))
+
+
 def run(overlay_dir, units, jobs=8, log_path=None, extra_timeout=120):
+    """Run `units` in cargo-kani invocations of at most CHUNK harnesses each (the cargo-kani driver
+    process keeps every result in memory: with 80 harnesses it was observed at 36 GB resident, and a
+    driver that is killed loses all results).  Units with the longest time limits go first so that
+    the slow ones share an invocation.  Returns ({harness: result}, meta)."""
+    if len(units) <= CHUNK:
+        return _run_once(overlay_dir, units, jobs, log_path, extra_timeout)
+    order = sorted(units, key=lambda u: -u["timeout"])
+    results = {}
+    metas = []
+    for k in range(0, len(order), CHUNK):
+        part = order[k:k + CHUNK]
+        lp = None
+        if log_path:
+            lp = log_path if k == 0 else log_path.replace(".log", f"-part{k // CHUNK + 1}.log")
+        r, m = _run_once(overlay_dir, part, jobs, lp, extra_timeout)
+        results.update(r)
+        metas.append(m)
+    meta = dict(metas[0])
+    meta["cmd"] = " ;; ".join(m.get("cmd", "") for m in metas)
+    meta["wall_s"] = sum(m.get("wall_s", 0) for m in metas)
+    meta["invocations"] = len(metas)
+    meta["overall_timeout"] = any(m.get("overall_timeout") for m in metas)
+    return results, meta
+
+
+def _run_once(overlay_dir, units, jobs=8, log_path=None, extra_timeout=120):
     """Run all `units` (kani) in one cargo-kani invocation.  Returns {harness: result}."""
     results = {}
     if not units:
